@@ -1852,6 +1852,18 @@ func genC15(g *G, sc *Scenario, tier string) {
 		if g.P(0.5) {
 			sc.Ops = append(sc.Ops, Op{K: "readback", S: g.Pick([]string{"entities", "changes", "latest"}), Limit: g.PickInt([]int{0, 1, 2, 3, 5})})
 		}
+		if g.P(0.4) {
+			// the HTTP query route over several start entities at once, paged through its continuation tokens
+			var starts []any
+			for _, pi := range g.r.Perm(len(c.Pool))[:min(len(c.Pool), g.Range(1, 3))] {
+				if strings.HasPrefix(c.Pool[pi], MkE) {
+					starts = append(starts, c.Pool[pi])
+				}
+			}
+			if len(starts) > 0 {
+				sc.Ops = append(sc.Ops, Op{K: "readback", S: "query", A: starts, Limit: g.PickInt([]int{0, 1, 1, 2, 4})})
+			}
+		}
 		if publicNS && !usedT && g.P(0.7) {
 			// the dataset lists a public namespace nobody has used yet; its first use is an update of an entity that
 			// exists already (no new entity in the batch), read back through a clean pull
